@@ -166,7 +166,20 @@ def _group_integrands_by_quadrature_rule(
         if scheme == "custom":
             points = md["quadrature_points"]
             weights = md["quadrature_weights"]
-            rules[cell_type] = (points, weights, None)
+            # The rule lives on the integration entity (as for the other
+            # schemes), which is what the kernel is tagged with
+            custom_cell_type = cell_type
+            if "facet" in integral_type:
+                facet_types = basix.cell.subentity_types(cell_type)[-2]
+                if len(set(facet_types)) == 1:
+                    custom_cell_type = facet_types[0]
+            elif integral_type == "ridge":
+                ridge_types = basix.cell.subentity_types(cell_type)[-3]
+                if len(set(ridge_types)) == 1:
+                    custom_cell_type = ridge_types[0]
+            elif integral_type == "vertex":
+                custom_cell_type = basix.CellType.point
+            rules[custom_cell_type] = (points, weights, None)
         elif scheme == "vertex":
             # The vertex scheme, i.e., averaging the function value in the
             # vertices and multiplying with the simplex volume, is only of
